@@ -277,8 +277,8 @@ func runWorker(p *propCfg, v variant, bin, dir string, idx int, seed uint64, che
 	args = append(args, extraArgs...)
 	cmd := exec.Command(bin, args...)
 	cmd.Dir = wdir
-	cmd.Env = append(env(), "VSIM_OUT="+outDir, "VSIM_TIER="+tier, "VSIM_KNOWN="+filepath.Join(verifDir, "known_findings.json"),
-		"VSIM_PROPERTY="+p.ID, "VSIM_REPO="+repoDir, "VSIM_WORKER="+strconv.Itoa(idx), "GORACE=halt_on_error=0 exitcode=0 suppress_equal_stacks=0 suppress_equal_addresses=0 log_path="+filepath.Join(wdir, "race"))
+	cmd.Env = append(env(), "VSIM_OUT="+outDir, "VSIM_TIER="+tier, "VSIM_KNOWN="+envOr("VSIM_KNOWN_FILE", filepath.Join(verifDir, "known_findings.json")),
+		"VSIM_PROPERTY="+p.ID, "VSIM_REPO="+repoDir, "VSIM_WORKER="+strconv.Itoa(idx), "GORACE=halt_on_error=0 exitcode=0 history_size=7 suppress_equal_stacks=0 suppress_equal_addresses=0 log_path="+filepath.Join(wdir, "race"))
 	cmd.Env = append(cmd.Env, "VSIM_SITES="+filepath.Join(dir, "sites.tsv"), "VSIM_RACE_LOG="+filepath.Join(wdir, "race"))
 	cmd.Env = append(cmd.Env, v.EnvExtra...)
 	cmd.Env = append(cmd.Env, extraEnv...)
